@@ -133,7 +133,8 @@ CLAIMS['C02'] = {
              'unchanged; drains and tree changes never change the allocation state; new_then_history: free-all / allocate-all construction (every frame '
              'count, arbitrary buffer contents) establishes the invariant, so this covers every call of every history of a constructed allocator. '
              'For Init::Recover/None the invariant of the handed-over state is an assumption (C05/C07).'
-             ' Theorem single_row_updates_match_source: the mask and the update closure of Bitfield::toggle for orders 0..2 (the step that claims/releases the bits of a block inside one row, e.g. for a targeted allocation) and the mask test of Bitfield::is_zero are regenerated from core/src/bitfield.rs on every run by the translator (Gen/Toggle.lean) and proved equal to the model\'s.'),
+             ' Theorem single_row_updates_match_source: the mask and the update closure of Bitfield::toggle for orders 0..2 (the step that claims/releases the bits of a block inside one row, e.g. for a targeted allocation) and the mask test of Bitfield::is_zero are regenerated from core/src/bitfield.rs on every run by the translator (Gen/Toggle.lean) and proved equal to the model\'s.'
+             ' Theorem conc_with_tree_changes_then_history_keeps_invariant: the same when the concurrent phase also changed trees (class changes, Offline).'),
     'note': TB + ' Upper-level theorems hold for configurations satisfying CfgOk (class ids < 8, ordered policy, tree size < 2^19: every configuration of the repository; derived from elementary checks by CfgOk.of_checks); they depend on the C23 theorem (bv_decide axioms) through the lower search.',
     'technique': 'Lean 4 refinement proof of the whole sequential allocator (Hoare-style program logic over the model, upper invariant with ghost state, induction over call histories) + byte-level sequential differential with shadow ownership model',
 }
